@@ -4,6 +4,7 @@ package c11
 
 import (
 	"fmt"
+	"math"
 	"math/rand/v2"
 	"slices"
 	"sort"
@@ -523,6 +524,27 @@ func TestSets(t *testing.T) {
 			})
 			return !p
 		}(),
+	}
+	// element types with values that are not equal to themselves: whatever a set makes of NaN members, Clear empties it
+	for _, vals := range [][]float64{{math.NaN()}, {1.5, math.NaN(), 2.5}, {math.NaN(), math.NaN()}, {math.Inf(1), math.NaN(), 0}} {
+		fs := container.NewMapSet(vals...)
+		cl := fs.Clone()
+		fs.Clear()
+		calls := 0
+		fs.Range(func(float64) bool { calls++; return true })
+		r.Eval(5)
+		if fs.Len() != 0 || len(fs.Values()) != 0 || calls != 0 || !fs.Equal(container.NewMapSet[float64]()) {
+			r.Violation(fmt.Sprintf("mapset-nan:%v", vals), fmt.Sprintf("MapSet[float64] of %v after Clear: Len=%d Values=%v, Range called f %d times, Equal(empty)=%v", vals, fs.Len(), fs.Values(), calls, fs.Equal(container.NewMapSet[float64]())), map[string]any{"nan_set": len(vals)})
+		}
+		if cl.Len() != len(vals) {
+			r.Violation(fmt.Sprintf("mapset-nan-clone:%v", vals), fmt.Sprintf("the Clone of MapSet[float64] of %v has Len %d after the origin was cleared", vals, cl.Len()), map[string]any{"nan_set": len(vals)})
+		}
+		ss := container.NewSortedSliceSet(1.5, 0.5)
+		ss.Add(math.Inf(-1))
+		ss.Clear()
+		if ss.Len() != 0 || len(ss.Values()) != 0 {
+			r.Violation("sorted-float-clear", fmt.Sprintf("SortedSliceSet[float64] after Clear: Len=%d", ss.Len()), map[string]any{"nan_set": 0})
+		}
 	}
 	for name, ok := range nilChecks {
 		r.Eval(1)
